@@ -163,7 +163,8 @@ class TemplateGen:
     """Random template files from a grammar of nested directives (bounded depth) over literal
     text and the fixed expression pool."""
 
-    def __init__(self, rng, max_depth=3, err_rate=0.0):
+    def __init__(self, rng, max_depth=3, err_rate=0.0, esc_bias=False):
+        self.esc_bias = esc_bias      # C20: more expression tags, includes, applies and autoescape directives
         self.rng = rng
         self.max_depth = max_depth
         self.err_rate = err_rate
@@ -232,6 +233,8 @@ class TemplateGen:
         kinds = ["text"] * 6 + ["expr"] * 5 + ["raw", "cmt", "comment", "esc", "ws"]
         if depth < self.max_depth:
             kinds += ["if"] * 3 + ["for"] * 2 + ["try"] * 2 + ["apply"] * 2 + ["while", "block", "include"]
+        if self.esc_bias:
+            kinds += ["expr"] * 6 + ["raw"] * 2 + (["include"] * 4 + ["apply"] * 2 + ["block"] * 2 if depth < self.max_depth else [])
         if sc["loop"] and not sc["noflow"]:
             kinds += ["flow"] * 2
         if not sc["apply"]:
@@ -337,7 +340,7 @@ class TemplateGen:
     def file(self, name, blocks, include, extends=None):
         files = {"blocks": list(blocks), "include": include}
         out = ""
-        if self.rng.random() < 0.3:
+        if self.rng.random() < (0.6 if self.esc_bias else 0.3):
             out += self.tag("autoescape " + self.rng.choice(["None", "xhtml_escape", "escape"])) + self.rng.choice(["", "\n"])
         if extends:
             out += self.tag('extends "%s"' % extends) + "\n"
@@ -367,15 +370,16 @@ S_ATOMS = ["<", ">", "&", '"', "'", "a", "b", " ", "&amp;", "é", "€", "\U0001
 def random_case(args):
     """(id, seed, err_rate) -> trace record {"id", "cfg", "ev"} recorded from the real code."""
     import random
-    tid, seed, err_rate = args
+    tid, seed, err_rate = args[:3]
+    esc_bias = len(args) > 3 and args[3]
     rng = random.Random(seed)
-    g = TemplateGen(rng, max_depth=rng.choice([2, 3, 3]), err_rate=err_rate if rng.random() < 0.3 else 0.0)
+    g = TemplateGen(rng, max_depth=rng.choice([2, 3, 3]), err_rate=err_rate if rng.random() < 0.3 else 0.0, esc_bias=esc_bias)
     files = g.fileset()
 
     def val(lo, hi):
         return "".join(rng.choice(S_ATOMS) for _ in range(rng.randint(lo, hi)))
     cfg = {"fam": "trace", "lib": 0, "fuel": 4,
-           "ae": rng.choice(["xhtml_escape", "xhtml_escape", "None"]),
+           "ae": rng.choice(["xhtml_escape", "xhtml_escape", "None"] if not esc_bias else ["xhtml_escape", "None"]),
            "ws": rng.choice(["default", "all", "single", "oneline"]),
            "sval": [ord(c) for c in val(0, 6)], "bval": [ord(c) for c in val(1, 4)], "oval": [ord(c) for c in val(1, 4)]}
     src = {k: [ord(c) for c in v] for k, v in files.items()}
@@ -401,20 +405,26 @@ def guarded_render(cfg, src, seconds=20):
     except ValueError:          # not in the main thread
         return render(cfg, src)
     signal.setitimer(signal.ITIMER_REAL, seconds, 0.2)      # keeps firing: a bare {% except %} may swallow one
+    import resource
+    limit = resource.getrlimit(resource.RLIMIT_AS)
     try:
-        import resource
-        soft, hard = resource.getrlimit(resource.RLIMIT_AS)
-        if soft == resource.RLIM_INFINITY or soft > 6 << 30:
-            resource.setrlimit(resource.RLIMIT_AS, (6 << 30, hard))   # a runaway template must not exhaust the machine
+        if limit[0] == resource.RLIM_INFINITY or limit[0] > 6 << 30:
+            resource.setrlimit(resource.RLIMIT_AS, (6 << 30, limit[1]))   # a runaway template must not exhaust the machine
     except Exception:
         pass
     try:
         return render(cfg, src)
     except _Timeout:
         return {"kind": "timeout"}
+    except MemoryError:
+        return {"kind": "exc", "mro": ["MemoryError", "Exception"], "phase": "generate"}
     finally:
         signal.setitimer(signal.ITIMER_REAL, 0)
         signal.signal(signal.SIGALRM, old)
+        try:
+            resource.setrlimit(resource.RLIMIT_AS, limit)      # children (TLC) must not inherit the cap
+        except Exception:
+            pass
 
 
 # ---------------------------------------------------------------------------------------
@@ -575,3 +585,35 @@ def gen_and_replay(ctx, module, cfg, overrides, timeout=600, spec_dir="tmpl", la
     ctx.cov["gen_runs"] = ctx.cov.get("gen_runs", []) + [
         {"module": module, "cfg": cfg, "overrides": framework.canon(overrides), "states": r.distinct, "wall_s": round(r.wall_s, 2)}]
     return n
+
+
+# ---------------------------------------------------------------------------------------
+def validate_shards_threads(spec_dir, module, cfgp, traces, shards, scratch, timeout, verbose, env=None):
+    """Drop-in for framework._validate_shards that runs the shards from *threads* (each shard is a
+    TLC subprocess, so threads parallelise as well as processes do).  The shared version uses
+    multiprocessing.Pool.map, which waits forever when a worker process dies (observed three
+    times on the shared build machine, see notes/tmpl.md); a thread cannot be lost that way and a
+    failing TLC surfaces as TLCError.  Installed by checks/C19.run_traces for this process only."""
+    import time
+    from concurrent.futures import ThreadPoolExecutor
+    from . import framework
+    shards = max(1, shards)
+    stamp = "%d_%d" % (int(verbose), int(time.time() * 1000) % 1000000)
+    jobs = []
+    for i in range(shards):
+        part = traces[i::shards]
+        if part:
+            jobs.append((spec_dir, module, cfgp, part, scratch, "%s_%d" % (stamp, i), timeout, verbose, env))
+    if len(jobs) == 1:
+        res = [framework._validate_one(jobs[0])]
+    else:
+        with ThreadPoolExecutor(len(jobs)) as ex:
+            res = list(ex.map(framework._validate_one, jobs))
+    accepted, at_all, inv_viol = set(), {}, {}
+    for acc, at, inv in res:
+        accepted |= acc
+        at_all.update(at)
+        inv_viol.update(inv)
+    if verbose:
+        return accepted, inv_viol, at_all
+    return accepted, inv_viol
